@@ -83,11 +83,46 @@ def broken(rng, toks):
     return ' '.join(toks)
 
 
+WORDS = set('''all and as assign at begin break column cycle default define
+else end from get group if in location logical off on or pause print printf
+println raw repeat return rgb row set stage to units wait while with zone hue
+saturation brightness kelvin red green blue duration time H S B K round trunc
+floor ceil sqrt sin cos tan asin acos atan random choose not breakpoint
+'''.split())
+PROBES = ['break', 'return', 'return 5', 'stage row 0', 'end', 'else print 1',
+          'print 1 break', 'if 1 break', 'repeat 2 begin print 1 end break',
+          'define zz_r begin return 1 end print [ zz_r ]',
+          'define zz_r with zz_p print zz_p print zz_p',
+          'set "Candle" begin stage row 0 end stage row 1',
+          'repeat with zz_i from 1 to 3 print zz_i print zz_i',
+          'print 1 end', 'print { 1 + 2 } }', 'print 1 ]', 'hue 5 set all']
+
+
+def probe(rng, prev_toks):
+    """a short text whose verdict would change if anything were left over
+    from the previous request (loop, routine or matrix context, symbols,
+    pending jumps)"""
+    r = rng.random()
+    names = sorted({t for t in prev_toks if t.isidentifier()
+                    and t not in WORDS}) if prev_toks else []
+    if r < 0.6 or not names:
+        return rng.choice(PROBES)
+    n = rng.choice(names)
+    return rng.choice(['print {}', 'define {} 5 print {}', '{}', '[ {} ]',
+                       'assign {} 3 print {}', 'hue {}',
+                       'define {} with zz_a print zz_a {} 1']).replace('{}', n)
+
+
 def part_parser(ctx, i):
     rng = ctx.rng('parser', i)
     pop = gen.random_population(rng, 4)
     texts = []
+    toks = []
     for _ in range(rng.randint(2, 8)):
+        if texts and rng.random() < 0.25:
+            texts.append(probe(rng, toks))
+            ctx.count('probe_texts')
+            continue
         try:
             prog, _, _ = gen.generate(rng, pop, PROFILE)
         except gen.TooBig:
@@ -177,6 +212,25 @@ def reset_devices(pop):
         dev.cells = [[0, 0, 0, 0] for _ in dev.cells]
 
 
+# scripts in which one name is a macro *and*, elsewhere, a parameter, a local
+# or a named printf field: whatever the first run does with them, a later
+# run of the same job does the same
+OVERLAPS = [
+    'define show with m begin print m assign m {{ m + 1 }} print m end '
+    'define m {v} show 75 print m printf "{{m}} {{}}" m',
+    'define f with v begin print v end define v {v} f 9 print v hue v '
+    'set all',
+    'define g begin assign t 3 print t end define t {v} g print t '
+    'printf "{{t}}" g',
+    'assign z 4 define h with q begin assign z {{ q + z }} return z end '
+    'define q {v} print [ h 2 ] print [ h q ] print z printf "{{q}} {{z}}"',
+    'define lamp "Top" define look with lamp begin on lamp print lamp end '
+    'look "{name}" look lamp on lamp',
+    'define n {v} repeat 2 begin define w with n begin print n end w 1 end '
+    'print n',
+]
+
+
 def part_job(ctx, i):
     rng = ctx.rng('job', i)
     pop = gen.random_population(rng, 5)
@@ -185,6 +239,23 @@ def part_job(ctx, i):
     except gen.TooBig:
         return
     text = render.canonical(render.tokens(prog, rng))
+    if rng.random() < 0.12:
+        text = rng.choice(OVERLAPS).format(
+            v=rng.choice([5, 40, 2.5]),
+            name=pop[0]['label'] if pop else 'Nobody')
+        dec = []
+        ctx.count('jobs_with_overlapping_names')
+    elif rng.random() < 0.5:
+        # starts by using every setting as it finds it, ends leaving settings
+        # behind that the next run must not see
+        text = ('set all on all printf "{hue} {saturation} {brightness} '
+                '{kelvin} {duration} {time}" ' + text + ' ' + rng.choice([
+                    'units raw', 'units rgb', 'units raw hue 40000 duration 7',
+                    'hue 200 saturation 90 duration 3 time 2',
+                    'units rgb red 10 green 20 blue 30 time 1',
+                    'time at 8:00', 'set default', 'print 1', 'println 2',
+                    'printf "x"', 'assign zz_left 5 define zz_m 6']))
+        ctx.count('jobs_with_dirty_tail')
     diffrun.setup(pop)
     r1 = run_script(text, dec, monitor=True, keep_job=True)
     if not r1.accepted or r1.stops or r1.budget_exhausted:
@@ -225,6 +296,29 @@ def part_job(ctx, i):
                                text[:500]), replay)
             return
         ctx.count('reruns_equal')
+    if rng.random() < 0.25:
+        # a stop request that arrives while the job is not running at all:
+        # the next run may be cut short by it, the one after that is complete
+        job.request_stop()
+        reset_devices(pop)
+        run_script(text, dec, job=job, mon=mon)
+        reset_devices(pop)
+        r = run_script(text, dec, job=job, mon=mon)
+        ctx.count('executions', 2)
+        got = repr(refmodel.stream_of(r.log))
+        if r.stops or got != first:
+            a, b = refmodel.stream_of(r.log), refmodel.stream_of(r1.log)
+            d = next((j for j, (x, y) in enumerate(zip(a, b))
+                      if repr(x) != repr(y)), min(len(a), len(b)))
+            ctx.violation(
+                'job:rerun-differs:after-idle-stop',
+                'the second execution after a stop request made while the job '
+                'was idle differs from the first complete run at event {}: {} '
+                'vs {} {} | {}'.format(d, a[d] if d < len(a) else None,
+                                       b[d] if d < len(b) else None,
+                                       r.stops[:1], text[:500]), replay)
+            return
+        ctx.count('reruns_equal_after_idle_stop')
 
 
 def run_with_stdout(text, dec, pop, stop_at=None):
